@@ -185,6 +185,70 @@ theorem c16_dispatch (l : RuleList) (m : Msg) :
 example : appliesTo .connectHeader .connectRequest = true ∧
     appliesTo .header .connectRequest = false := by decide
 
+/-! ### D2. Response rules on every kind of response the client can be sent
+
+  `rulesApplyTo k` mirrors the guard of `configureHeadersModifiers`' response modifier evaluated on what
+  `res.Request` names while the modifiers run, in the order of martian `writeErrorResponse`
+  (`writeErrorOrder`: rebind, modify, write). -/
+
+/-- the response list touches EVERY response to a non-CONNECT request of the client — the origin's (with
+    a body, header-only, 101), the proxy's own error responses, and an upstream proxy's refusal of the
+    transport's CONNECT relayed to the client — and no response to a client's CONNECT -/
+theorem c16_response_rules_on_every_non_connect_response (k : ResponseKind) :
+    rulesApplyTo k = true ↔ answersConnect k = false := by
+  cases k <;> decide
+
+example : rulesApplyTo .relayedRefusal = true ∧ rulesApplyTo .localError = true ∧
+    rulesApplyTo .connectRefusal = false ∧ rulesApplyTo .connectOK = false := by decide
+
+/-- … which is the dispatch clause (`appliesTo`) read over the kinds of response -/
+theorem c16_response_rules_dispatch (k : ResponseKind) :
+    rulesApplyTo k = appliesTo .responseHeader (msgOf k) := by
+  cases k <;> decide
+
+/-- neither the request list nor the connect list touches any response -/
+theorem c16_only_the_response_list_touches_responses (l : RuleList) (k : ResponseKind)
+    (h : l ≠ .responseHeader) : appliesTo l (msgOf k) = false := by
+  cases l <;> cases k <;> first | decide | exact absurd rfl h
+
+example : appliesTo .connectHeader (msgOf .connectRefusal) = false := by decide
+
+/-- every order of the steps of `writeErrorResponse` in which the rebinding comes before the response
+    modifiers keeps the clause, for every kind of response -/
+theorem c16_rebind_before_modifiers_suffices (order : List WriteStep) (k : ResponseKind)
+    (h : (order.takeWhile (fun s => s != .modify)).contains .rebind = true) :
+    rulesApplyToWith order k = !answersConnect k := by
+  simp only [rulesApplyToWith, boundAtModify, h, if_true, modifierRuns]
+
+example : (writeErrorOrder.takeWhile (fun s => s != .modify)).contains .rebind = true := by decide
+
+/-- the order matters for the relayed refusal only: every other kind of response is born bound to the
+    client's request -/
+theorem c16_rebind_order_matters_for_relayed_refusal_only (order : List WriteStep) (k : ResponseKind)
+    (h : k ≠ .relayedRefusal) : rulesApplyToWith order k = rulesApplyTo k := by
+  have hb : bornBoundTo k = .clientRequest := by cases k <;> first | rfl | exact absurd rfl h
+  have : ∀ o, boundAtModify o k = .clientRequest := by
+    intro o; simp only [boundAtModify, hb]; split <;> rfl
+  simp only [rulesApplyTo, rulesApplyToWith, this]
+
+/-- witness for "rebind after the modifiers" (bind once, right before the write): the relayed refusal
+    answers a non-CONNECT request, and the response list skips it — while the order of the code and
+    every other kind of response are as before -/
+theorem c16_rebind_after_modifiers_witness :
+    answersConnect .relayedRefusal = false ∧
+    rulesApplyToWith rebindBeforeWrite .relayedRefusal = false ∧
+    rulesApplyToWith writeErrorOrder .relayedRefusal = true ∧
+    (ResponseKind.all.filter (fun k => rulesApplyToWith rebindBeforeWrite k != rulesApplyTo k)) =
+      [.relayedRefusal] := by
+  decide
+
+/-- the order of `writeErrorResponse` is needed: the clause is not a theorem for every order -/
+theorem c16_rebind_order_needed :
+    ¬ ∀ (order : List WriteStep) (k : ResponseKind),
+        rulesApplyToWith order k = true ↔ answersConnect k = false := by
+  intro h
+  exact absurd ((h rebindBeforeWrite .relayedRefusal).mpr (by decide)) (by decide)
+
 /-! ## E. The rules on the message that is actually forwarded: `User-Agent` and `Authorization`
 
   `runStack order cred rs h` runs the stages of `HTTPProxy.middlewareStack` (user rules,
